@@ -111,6 +111,46 @@ let run id =
     (match toAttrs (fun _ v -> if v = 0 then ANull else AVal v) attrs with
      | None -> Printf.printf "%s ta error\n" id
      | Some l -> Printf.printf "%s ta %s\n" id (String.concat "," (Stdlib.List.map (fun (a, v) -> hexb a ^ "=" ^ string_of_int v) l)))
+  | "qo" ->
+    (* specs (schema, label) in slice order; then the order in which byLabel is delivered:
+       a permutation of its entries, and whether the inner maps are delivered reversed *)
+    let n = next_int () in
+    let specs = times n (fun () -> let s = next_nat () in let l = next_nat () in { q_schema = s; q_label = l }) in
+    let m = next_int () in
+    let perm = times m next_int in
+    let rev = next_int () in
+    let bl0 = byLabel specs in
+    if m <> Stdlib.List.length bl0 then Printf.printf "%s qo BAD-PERM %d %d\n" id m (Stdlib.List.length bl0)
+    else begin
+      let bl = Stdlib.List.map (fun i -> let (l, v) = Stdlib.List.nth bl0 i in (l, if rev = 1 then Stdlib.List.rev v else v)) perm in
+      let res = qualifyObjects_over bl specs in
+      let strs = Stdlib.List.map (fun (o, q) ->
+        Printf.sprintf "%d.%d=%s" (int_of_nat o.q_schema) (int_of_nat o.q_label)
+          (match q with None -> "-" | Some x -> string_of_int (int_of_nat x))) res in
+      Printf.printf "%s qo %s\n" id (String.concat "," (Stdlib.List.sort compare strs))
+    end
+  | "qr" ->
+    (* as qo, then the referenced tables (schema, label): how QualifyReferences writes the reference *)
+    let n = next_int () in
+    let specs = times n (fun () -> let s = next_nat () in let l = next_nat () in { q_schema = s; q_label = l }) in
+    let m = next_int () in
+    let perm = times m next_int in
+    let rev = next_int () in
+    let k = next_int () in
+    let targets = times k (fun () -> let s = next_nat () in let l = next_nat () in { q_schema = s; q_label = l }) in
+    let bl0 = byLabel specs in
+    if m <> Stdlib.List.length bl0 then Printf.printf "%s qr BAD-PERM %d %d\n" id m (Stdlib.List.length bl0)
+    else begin
+      let bl = Stdlib.List.map (fun i -> let (l, v) = Stdlib.List.nth bl0 i in (l, if rev = 1 then Stdlib.List.rev v else v)) perm in
+      let res = qualifyObjects_over bl specs in
+      let strs = Stdlib.List.map (fun t ->
+        Printf.sprintf "%d.%d=>%s" (int_of_nat t.q_schema) (int_of_nat t.q_label)
+          (match qualifyReferences_ref res t with
+           | RefQualified (q, l) -> Printf.sprintf "%d.%d" (int_of_nat q) (int_of_nat l)
+           | RefPlain l -> string_of_int (int_of_nat l)
+           | RefMissing -> "missing")) targets in
+      Printf.printf "%s qr %s\n" id (String.concat "," (Stdlib.List.sort compare strs))
+    end
   | k -> Printf.printf "%s unknown-kind %s\n" id k
 
 let () =
